@@ -128,6 +128,17 @@ func rootIsParam(v ssa.Value) bool {
 			v = x.X
 		case *ssa.Parameter, *ssa.FreeVar:
 			return true
+		case *ssa.Alloc:
+			// a parameter spilled to the heap because a closure captures it:
+			// exactly one store, of the parameter itself
+			n, ok := 0, false
+			for _, ref := range Referrers(x) {
+				if st, isSt := ref.(*ssa.Store); isSt && st.Addr == ssa.Value(x) {
+					n++
+					_, ok = st.Val.(*ssa.Parameter)
+				}
+			}
+			return n == 1 && ok
 		default:
 			return false
 		}
